@@ -431,7 +431,13 @@ Section ENGINE.
     | a :: b :: r => f a b :: b :: map_even f r
     | _ => l
     end.
-  Definition dur_seconds (dur : Z) : V := vdiv (vofZ (Z.quot dur 1000000)) (vofZ 1000).
+  (* the range in seconds, `float64(l.Duration.Nanoseconds()) / 1e9` (since the round-6 fix; it was
+     `float64(l.Duration.Milliseconds()) / 1000`: the range truncated to whole milliseconds, [999us] = 0).
+     dur is the range in nanoseconds; the reference semantics divides by the same number: the LogQL rate is
+     per second of the range, and the ClickHouse path prints the range exactly (LogqlPlan.secs_text). *)
+  Definition dur_seconds (dur : Z) : V := vdiv (vofZ dur) (vofZ 1000000000).
+  (* what the code computed before the fix (kept for the refutation in the proofs, not used by the model) *)
+  Definition dur_seconds_ms (dur : Z) : V := vdiv (vofZ (Z.quot dur 1000000)) (vofZ 1000).
   Definition lra_fin (fn : lra_fn) (dur : Z) (l : list V) : list V :=
     match fn with
     | LRate | LBytesRate => map_even (fun a _ => vdiv a (dur_seconds dur)) l
@@ -951,7 +957,23 @@ Section FCASE.
               o_fpf o_re o_pf o_parse o_tmpl (f_ctx k) (f_chain k) (f_in k) (f_obs k).
   Definition f_code : Z :=
     if f_spec_code =? 0 then cancel_code float (f_ctx k) (f_in k) (f_obs k) (f_cancel k) else f_spec_code.
+  (* what the reference semantics prescribes for the case (the list spec_code compares the observation with), for replays *)
+  Definition f_expected : list fentry :=
+    sort_lbl float (sem_chain float 0%float 1%float PrimFloat.add PrimFloat.div PrimFloat.ltb PrimFloat.leb PrimFloat.eqb fofZ
+                              o_fpf o_re o_pf o_parse o_tmpl (f_ctx k) (f_chain k) (List.concat (f_in k))).
 End FCASE.
+
+(* the expected entries of a case as rows (timestamp - From, position of the label set in lpool, position of the line in spool,
+   value): the replay file names label sets and lines through the pools of the generated file; -1 = not in the pool *)
+Fixpoint pos_in {A} (eqb : A -> A -> bool) (l : list A) (a : A) (i : Z) : Z :=
+  match l with
+  | [] => -1
+  | x :: r => if eqb a x then i else pos_in eqb r a (i + 1)
+  end.
+Definition expected_rows (lpool : list lbls) (spool : list string) (k : fcase) : list (Z * Z * Z * float) :=
+  map (fun e : fentry => (e_ts float e - c_from (f_ctx k), pos_in lbls_eqb lpool (lbl_of float e) 0, pos_in String.eqb spool (e_msg float e) 0,
+                          e_val float e))
+      (f_expected k).
 
 Definition mismatches (cs : list fcase) : list Z := map f_id (filter f_mismatch cs).
 Definition spec_violations (cs : list fcase) : list (Z * Z) :=
